@@ -48,7 +48,7 @@ def run(ctx):
     user = lambda p: -np.sum(p)
     for _ in range(ctx.n(600, 8000)):
         j = ctx.rng.randint(2, 6)
-        B = ctx.rng.randint(2, 30)
+        B = ctx.rng.randint(2, 30) if ctx.rng.random() < 0.93 else ctx.rng.choice([64, 120])
         plus1 = ctx.rng.random() < 0.5
         comb = ctx.rng.choice(["fisher", "tippett", "callable"])
         name = {"callable": "negsum"}.get(comb, comb)
